@@ -222,7 +222,7 @@ func (g *Gen) solveAll(obls []*Obligation, dir string, timeoutMS, seed, par int)
 		}()
 	}
 	wg.Wait()
-	// stage 3: obligations left undecided are retried with little parallelism and twice the budget, so
+	// stage 3: obligations left undecided are retried with little parallelism and three times the budget, so
 	// that a verdict does not depend on how loaded the machine was during the parallel pass
 	var again []*Obligation
 	for _, ob := range obls {
@@ -242,7 +242,7 @@ func (g *Gen) solveAll(obls []*Obligation, dir string, timeoutMS, seed, par int)
 			defer wg.Done()
 			defer func() { <-sem2 }()
 			first := ob.Output
-			g.solveOne(ob, dir, header, timeoutMS*2, seed+1)
+			g.solveOne(ob, dir, header, timeoutMS*3, seed+1)
 			ob.Output = "retry after: " + first + " | " + ob.Output
 		}()
 	}
